@@ -14,7 +14,7 @@ Inductive op :=
 | ODiscard.
 
 Inductive case :=
-| TxnCase (d : dbcfg) (thr : Z) (update : bool) (ops : list op) (cts : N) (blocked : bool)
+| TxnCase (fxm : bool) (d : dbcfg) (thr : Z) (update : bool) (ops : list op) (cts : N) (blocked : bool)
           (thr_c : Z) (commit_code : N)   (* thr: threshold during the calls, thr_c: at Commit *)
 | Limits (mts : Z) (count size : Z)
 | Banned (off : Z) (banned : list N) (key : bytes) (code : N)
@@ -63,8 +63,10 @@ Fixpoint run_ops (d : dbcfg) (thr : Z) (t : txn) (ops : list op) : txn * bool * 
 
 Definition run_case (c : case) : bool * list N :=
   match c with
-  | TxnCase d thr update ops cts blocked thr_c commit_code =>
-      let '(t, ok, tags) := run_ops d thr (new_txn false update) ops in
+  | TxnCase fxm d thr update ops cts blocked thr_c commit_code =>
+      (* fxm = the end-marker reservation the implementation uses now (finding F4), read off a
+         fresh transaction by the harness *)
+      let '(t, ok, tags) := run_ops d thr (new_txn fxm update) ops in
       let r := commit d thr_c blocked t cts in
       let '(code, tag) :=
         match r with
